@@ -261,6 +261,25 @@ func c04GenScene(r *core.R) *c04Scene {
 	if len(s.Sites) == 0 {
 		return nil
 	}
+	// tagged points exactly on S2 cell boundaries of every level: the prime
+	// meridian and the equator are cell edges on their cube faces and, unlike a
+	// quantised cell vertex, survive the E7 grid exactly
+	if r.Chance(0.6) {
+		for k, n := 0, r.Range(2, 4); k < n; k++ {
+			var l c05LL
+			switch r.Intn(4) {
+			case 0:
+				l = c05LL{514500000 + int64(r.Intn(1500000)), 0}
+			case 1:
+				l = c05LL{-800000000 + int64(r.Intn(1600000000)), 0}
+			case 2:
+				l = c05LL{0, -400000000 + int64(r.Intn(800000000))}
+			default:
+				l = c05LL{0, 0}
+			}
+			s.addPoint(-1, "on-cell-boundary", l, true)
+		}
+	}
 	// very large extents
 	if r.Chance(0.6) { // a path that visits many cube faces
 		var line []c05LL
